@@ -123,6 +123,8 @@ def run(tier, replay_file=None):
         if quick:
             a = [h for h in hx if h[2]["i"] == "i1"]; b = [h for h in hx if h[2]["i"] == "i2"]
             hx = _r.Random(common.seed() + 6).sample(a, min(len(a), 50)) + _r.Random(common.seed() + 7).sample(b, min(len(b), 50))
+        else:
+            hx = _r.Random(common.seed() + 6).sample(hx, min(len(hx), 1600))      # (thorough: a bounded sample of the enumerated family)
         if not hx:
             raise common.Machinery("mixed-store family is empty (vacuous)")
         if not replay_set(R, hx, compress, known_total):
